@@ -14,6 +14,8 @@
 //	         up, stall (the 16384-frame buffer overflows) or disconnect
 //	conc F5  a subscriber that connects / disconnects while a message is being logged (all interleavings)
 //	space M, conc F6 (round 7, fanout.go)  several subscribers, some stalled, in every visiting order
+//	space P  (round 8b, wire.go) messages parsed from wire bytes by http.ReadRequest / ReadResponse, judged
+//	         against the header lines on the wire (explicit Content-Length: 0, Host, Transfer-Encoding)
 //	reader   sources that deliver the stream in other pieces than bytes.Reader (one byte at a time, data
 //	         together with EOF, half reads, a non-EOF error) x every truncation offset of a stream whose frames
 //	         straddle bufio's 4096-byte buffer
@@ -70,6 +72,8 @@ func sigClass(c rtCase) string {
 	switch {
 	case c.Space == "M":
 		return "handler_fanout"
+	case c.Space == "P":
+		return "wire_message"
 	case len(c.Subs) > 0:
 		return "handler"
 	case c.W != nil:
@@ -98,6 +102,7 @@ func checkCase(c rtCase, obs *observation, add violSink) (nframes int, stateKeys
 	if len(obs.subs) > 0 {
 		stateKeys = append(stateKeys, checkSubscribers(obs, add)...)
 	}
+	stateKeys = append(stateKeys, wireKeys(obs)...)
 	return
 }
 
